@@ -308,22 +308,6 @@ func pendingPanic(b []Stmt) bool {
 	return false
 }
 
-// argByRef: some defer statement passes the named result variable as argument.
-func argByRef(b []Stmt) bool {
-	for _, s := range b {
-		if s.Op == "panic" {
-			return false // the rest of the body is dead
-		}
-		if (s.Op == "defer" || s.Op == "deferbin") && s.Arg == "res" {
-			return true
-		}
-		if (s.Op == "call" || s.Op == "defer") && argByRef(s.Body) {
-			return true
-		}
-	}
-	return false
-}
-
 // hasRepanic: some live `if x := recover(); x != nil { panic(x) }`.
 func hasRepanic(b []Stmt) bool {
 	for _, s := range b {
@@ -339,9 +323,10 @@ func hasRepanic(b []Stmt) bool {
 	return false
 }
 
+// (Until the repair of F06-1 there was a third class, defer-arg-by-ref: a defer statement whose argument is
+// the named result variable. Such programs are inside the proved domain now.)
 const (
 	classPending = "deferred-panic-pending"
-	classArgRef  = "defer-arg-by-ref"
 	classRepanic = "repanic-boxed-value"
 )
 
@@ -350,8 +335,6 @@ func classOf(p Prog) string {
 	switch {
 	case pendingPanic(x):
 		return classPending
-	case argByRef(x):
-		return classArgRef
 	case hasRepanic(x):
 		return classRepanic
 	}
@@ -372,7 +355,6 @@ func size(b []Stmt) int {
 type genCfg struct {
 	rng      *rand.Rand
 	allowRe  bool // `if x := recover(); x != nil { panic(x) }` may be generated
-	allowRef bool // defer arguments may be the named result
 	allowPnd bool // a deferred callee may panic although another deferred call is pending
 	budget   int  // statements left
 	tag      int
@@ -402,9 +384,7 @@ func (g *genCfg) arg() string {
 	case 0:
 		return "param"
 	case 1:
-		if g.allowRef {
-			return "res"
-		}
+		return "res" // the named result variable: assigned before and after the defer statement (F06-1, fixed)
 	}
 	return fmt.Sprint(g.pick(9) + 1)
 }
@@ -447,9 +427,6 @@ func (g *genCfg) body(depth int, role string, quiet bool) []Stmt {
 			out = append(out, Stmt{Op: "printarg"})
 		case c < 32 && depth < 4:
 			s := Stmt{Op: "call", Arg: g.arg(), Show: g.pick(2) == 0}
-			if s.Arg == "res" && !g.allowRef {
-				s.Arg = "param"
-			}
 			s.Body = g.body(depth+1, "called", quiet)
 			s.Form = g.form(usesOuter(s.Body))
 			out = append(out, s)
@@ -508,19 +485,17 @@ func (g *genCfg) body(depth int, role string, quiet bool) []Stmt {
 }
 
 // generateOne draws one program from the named stream: dom (inside the proved domain),
-// pending (F07 class allowed), argref (by-reference defer arguments allowed), repanic (re-panic of the
-// recovered value allowed), wild (all three).
+// pending (F07 class allowed), repanic (re-panic of the recovered value allowed), wild (both).
+// In every stream the argument of a call / defer statement may be the named result variable.
 func generateOne(rng *rand.Rand, stream string) Prog {
 	g := &genCfg{rng: rng, budget: 8 + rng.Intn(24)}
 	switch stream {
 	case "pending":
 		g.allowPnd = true
-	case "argref":
-		g.allowRef = true
 	case "repanic":
 		g.allowRe = true
 	case "wild":
-		g.allowPnd, g.allowRef, g.allowRe = true, true, true
+		g.allowPnd, g.allowRe = true, true
 	}
 	p := Prog{Top: g.body(0, "top", false), Style: "main"}
 	if rng.Intn(2) == 0 {
